@@ -96,13 +96,16 @@ def _subst_once(expr: ast.AST, name: str, val: ast.AST) -> ast.AST:
     return S().visit(expr)
 
 
-def inline_sequential(expr: ast.AST, stmt: ast.stmt, cross=(ast.If, ast.With, ast.Try), max_len: int = 4000) -> ast.AST:
+def inline_sequential(expr: ast.AST, stmt: ast.stmt, cross=(ast.If, ast.With, ast.Try), max_len: int = 4000, keep=()) -> ast.AST:
     """expr (part of stmt) rewritten over the values that were current when stmt runs: the straight-line code before stmt is walked
     backwards and each `name = value` (or `name: T = value`) whose name the expression reads is substituted, so a chain of re-assignments
     (`s = s.split(':'); s = s[1].strip()`) composes into one expression.  The walk continues in the enclosing block through if/with/try
-    headers, never across a loop or function boundary; a compound statement that may re-bind a name the expression reads ends it."""
+    headers, never across a loop or function boundary.  A name that a compound statement on the way may re-bind is left as it is (from
+    there on it is opaque), and so are the names in `keep`."""
     cur_expr = clone(expr)
     cur: Optional[ast.AST] = stmt
+    frozen = set(keep)
+    # occurrences of a frozen name that came in with a substituted value must stay opaque too: they are renamed apart while frozen
     while cur is not None:
         blk = _block_of(cur)
         if blk is None:
@@ -110,9 +113,8 @@ def inline_sequential(expr: ast.AST, stmt: ast.stmt, cross=(ast.If, ast.With, as
         idx = next((i for i, s in enumerate(blk) if s is cur), None)
         if idx is None:
             break
-        stop = False
         for s in reversed(blk[:idx]):
-            reads = {n.id for n in ast.walk(cur_expr) if isinstance(n, ast.Name) and isinstance(n.ctx, ast.Load)}
+            reads = {n.id for n in ast.walk(cur_expr) if isinstance(n, ast.Name) and isinstance(n.ctx, ast.Load)} - frozen
             tgt = None
             if isinstance(s, ast.Assign) and len(s.targets) == 1 and isinstance(s.targets[0], ast.Name):
                 tgt, val = s.targets[0].id, s.value
@@ -120,16 +122,17 @@ def inline_sequential(expr: ast.AST, stmt: ast.stmt, cross=(ast.If, ast.With, as
                 tgt, val = s.target.id, s.value
             if tgt is not None:
                 if tgt in reads:
+                    # the value may read names that are already frozen further down: those occurrences denote the earlier binding, which
+                    # cannot be told apart syntactically from the frozen (later) one - so such a substitution is not made
+                    if {n.id for n in ast.walk(val) if isinstance(n, ast.Name)} & (frozen - set(keep)):
+                        frozen.add(tgt)
+                        continue
                     cur_expr = _subst_once(cur_expr, tgt, val)
                     if len(ast.dump(cur_expr)) > max_len * 10:
                         return cur_expr
                 continue
             stored = {n.id for n in ast.walk(s) if isinstance(n, ast.Name) and isinstance(n.ctx, (ast.Store, ast.Del))}
-            if stored & reads:
-                stop = True
-                break
-        if stop:
-            break
+            frozen |= (stored & reads)
         up = parent(cur)
         while up is not None and not isinstance(up, ast.stmt):
             up = parent(up)
@@ -137,9 +140,9 @@ def inline_sequential(expr: ast.AST, stmt: ast.stmt, cross=(ast.If, ast.With, as
             break
         # the header of a with-statement binds its `as` names
         if isinstance(up, ast.With):
-            reads = {n.id for n in ast.walk(cur_expr) if isinstance(n, ast.Name)}
-            if any(isinstance(n, ast.Name) and n.id in reads for it in up.items if it.optional_vars is not None for n in ast.walk(it.optional_vars)):
-                break
+            for it in up.items:
+                if it.optional_vars is not None:
+                    frozen |= {n.id for n in ast.walk(it.optional_vars) if isinstance(n, ast.Name)}
         cur = up
     return ast.fix_missing_locations(cur_expr)
 
